@@ -257,6 +257,8 @@ type Section struct {
 	Cmd      Cmd          `json:"cmd"`
 	Items    []SpliceItem `json:"items,omitempty"`
 	Stuffing int          `json:"stuffing,omitempty"`
+	// EncAlg: the 6 encryption_algorithm bits (encrypted_packet stays 0: a clear section)
+	EncAlg int `json:"enc_alg,omitempty"`
 }
 
 // Bytes serialises the section. mask[i] is false for the bytes of pts_adjustment when the
@@ -274,7 +276,7 @@ func (s Section) Bytes() (data []byte, mask []bool) {
 	secLen := 11 + len(cmd) + 2 + len(loop) + s.Stuffing + 4
 	b := []byte{0xFC, 0x30 | byte(secLen>>8)&0x0F, byte(secLen)}
 	adj := s.Adjust & pts33
-	b = append(b, 0x00, byte(adj>>32), byte(adj>>24), byte(adj>>16), byte(adj>>8), byte(adj))
+	b = append(b, 0x00, byte(s.EncAlg&0x3F)<<1|byte(adj>>32), byte(adj>>24), byte(adj>>16), byte(adj>>8), byte(adj))
 	b = append(b, byte(s.CW), byte(s.Tier>>4), byte(s.Tier<<4)|byte(len(cmd)>>8)&0x0F, byte(len(cmd)), s.Cmd.Type())
 	b = append(b, cmd...)
 	b = append(b, byte(len(loop)>>8), byte(len(loop)))
